@@ -3,6 +3,7 @@ package main
 import (
 	"fmt"
 	"math/rand"
+	"strings"
 
 	"github.com/inspirer/textmapper/lalr"
 )
@@ -158,8 +159,15 @@ func c07(c *Ctx) {
 			c.Count("lalr(1) already")
 		}
 		c.Debugf("k=%d %s", k, g.Pretty())
-		c.Case(fmt.Sprintf("lalrk %s %d %s", g.String(), k, tablesStr(t, g.NT)), "ok", key)
-		if !g.AllProductive() {
+		kline := fmt.Sprintf("lalrk %s %d %s", g.String(), k, tablesStr(t, g.NT))
+		known := false
+		if v := c.Lean([]string{kline}); strings.Contains(v[0], "[C01-shared-final-state]") {
+			// known class: the tables accept in an inner context; reported once through the lalrk case
+			known = true
+			c.Count("known class: shared final state")
+		}
+		c.Case(kline, "ok", key)
+		if !g.AllProductive() || known {
 			continue
 		}
 		for idx, in := range g.Inputs {
